@@ -112,30 +112,27 @@ theorem retransmit_budget (M h : Nat) (c : Client) (hi : TInv c) (tx : Txn) (id 
 theorem callback_budget (M h : Nat) (c : Client) (hi : TInv c) (hM : c.maxAttempts = M) (id : TID) (e : CEv) :
     wr h (c.callback id e).2 + budget M h (c.callback id e).1 ≤ budget M h c := by
   unfold Client.callback
-  by_cases hc : c.closed = true
-  · simp only [hc, if_true, wr_nil]; omega
-  · simp only [hc, Bool.false_eq_true, if_false]
-    cases hl : c.lookup id with
-    | none =>
-      simp only
-      by_cases hfb : (c.hasFallback && e != .stopped) = true
-      · simp only [hfb, if_true, wr_fallback]; omega
-      · simp only [hfb, Bool.false_eq_true, if_false, wr_nil]; omega
-    | some tx =>
-      simp only
-      obtain ⟨k, hmem, hk⟩ := lookup_mem c id tx hl
-      have htxid : tx.id = id := by have := hi.keyId _ hmem; simp only at this; rw [← this, hk]
-      have hie := tinv_erase c id hi
-      have hbe := budget_erase M h c hi id tx hl
-      by_cases hdone : (decide (c.maxAttempts ≤ tx.attempt) || e.isMsg) = true
-      · simp only [hdone, if_true, wr_call]; omega
-      · simp only [hdone, Bool.false_eq_true, if_false]
-        have hleft : tx.attempt < M := by
-          simp only [Bool.or_eq_true, decide_eq_true_eq, not_or] at hdone
-          omega
-        have hk' : id ∉ ckeys (c.erase id) := by rw [ckeys_erase]; simp
-        have := retransmit_budget M h (c.erase id) hie tx id htxid hk' hleft
+  cases hl : c.lookup id with
+  | none =>
+    simp only
+    by_cases hfb : (!c.closed && c.hasFallback && e != .stopped) = true
+    · simp only [hfb, if_true, wr_fallback]; omega
+    · simp only [hfb, Bool.false_eq_true, if_false, wr_nil]; omega
+  | some tx =>
+    simp only
+    obtain ⟨k, hmem, hk⟩ := lookup_mem c id tx hl
+    have htxid : tx.id = id := by have := hi.keyId _ hmem; simp only at this; rw [← this, hk]
+    have hie := tinv_erase c id hi
+    have hbe := budget_erase M h c hi id tx hl
+    by_cases hdone : (c.closed || decide (c.maxAttempts ≤ tx.attempt) || e.isMsg) = true
+    · simp only [hdone, if_true, wr_call]; omega
+    · simp only [hdone, Bool.false_eq_true, if_false]
+      have hleft : tx.attempt < M := by
+        simp only [Bool.or_eq_true, decide_eq_true_eq, not_or] at hdone
         omega
+      have hk' : id ∉ ckeys (c.erase id) := by rw [ckeys_erase]; simp
+      have := retransmit_budget M h (c.erase id) hie tx id htxid hk' hleft
+      omega
 
 theorem callbacks_budget (M h : Nat) (S) (evs : List (TID × CEv)) (c : Client) (hi : TInv c) (hf : FromStarts S c)
     (hM : c.maxAttempts = M) :
